@@ -160,7 +160,7 @@ def check_case(case, ctx):
         from vf.core import HarnessError
         raise HarnessError("the mosek side did not run MosekWrapper")
     if excm is not None:
-        if opts.get("drh") and getattr(task, "cvxpy_status", "optimal") not in ("optimal",):
+        if getattr(task, "cvxpy_status", "optimal") not in ("optimal",):
             ctx.label("inconclusive:mosek-side-heuristic-solver")
             return
         raise excm
